@@ -5663,7 +5663,10 @@ evdns_getaddrinfo_gotresolve(int result, char type, int count,
 			else
 				res = evutil_addrinfo_append_(
 				    data->pending_result, res);
-			res_ttl = data->pending_result_ttl;
+			/* The merged answer may be cached only as long as
+			 * both halves are valid. */
+			if (data->pending_result_ttl < res_ttl)
+				res_ttl = data->pending_result_ttl;
 			data->pending_result = NULL;
 		}
 
